@@ -1008,6 +1008,59 @@ theorem sysPropGetAtomsScaled_fresh_unchanged (s : State) (h : Inv s) (i : Nat) 
   · intro o' ho'
     exact (frame_fresh_meaning s _ ⟨⟨κ, hinv⟩, hb⟩ o' hf (hfr o' ho')).2
 
+/-- **`atoms_prop(index=…, scale=True)` IS** `deepcopy(atoms[index])` (`deepcopy(atoms)` without index) followed by ONE
+    whole-column assignment to the existing key `pos` of the new object, with the exact box-relative image of the copy's
+    positions (values of the copy: `refines_getItem`, `refines_deepcopy`; of the assignment: `viewSet_existing_refines`). -/
+theorem sysPropGetAtomsScaled_decomp (s : State) (i : Nat) (ix : Option Index) (o' : Nat) (s' : State)
+    (hrun : sysPropGetAtomsScaled i ix s = (.ok o', s')) :
+    ∃ s1 pa v', (match ix with
+        | none => deepcopy (s.sys i).atoms
+        | some jx => propGetAtoms (s.sys i).atoms jx : M Nat) s = (.ok o', s1) ∧
+      (s1.obj o').find "pos" = some pa ∧ cartToRelVal (s.sys i).box (arrVal s1 pa) = .ok v' ∧
+      viewSet o' "pos" (.lit v') s1 = (.ok (), s') := by
+  unfold sysPropGetAtomsScaled at hrun
+  obtain ⟨s0, sa, h0, hrun⟩ := bind_ok_inv _ _ _ _ _ hrun
+  have : s0 = s ∧ sa = s := by
+    have : (Except.ok s, s) = (Except.ok s0, sa) := h0
+    injection this with h1 h2
+    injection h1 with h1
+    exact ⟨h1.symm, h2.symm⟩
+  obtain ⟨e1, e2⟩ := this
+  subst s0
+  subst sa
+  obtain ⟨t, s1, h1, hrun⟩ := bind_ok_inv _ _ _ _ _ hrun
+  obtain ⟨s1', s1'', h2, hrun⟩ := bind_ok_inv _ _ _ _ _ hrun
+  have : s1' = s1 ∧ s1'' = s1 := by
+    have : (Except.ok s1, s1) = (Except.ok s1', s1'') := h2
+    injection this with h1 h2
+    injection h1 with h1
+    exact ⟨h1.symm, h2.symm⟩
+  obtain ⟨e1, e2⟩ := this
+  subst s1'
+  subst s1''
+  obtain ⟨pa, s2, h3, hrun⟩ := bind_ok_inv _ _ _ _ _ hrun
+  cases hf : (s1.obj t).find "pos" with
+  | none => simp [hf, keyErr, liftO, fail] at h3
+  | some pa' =>
+    simp only [hf, keyErr, liftO, M.pure] at h3
+    injection h3 with h3a h3b
+    injection h3a with h3a
+    subst h3a; subst h3b
+    obtain ⟨v', s3, h4, hrun⟩ := bind_ok_inv _ _ _ _ _ hrun
+    simp only [liftE] at h4
+    injection h4 with h4a h4b
+    subst h4b
+    obtain ⟨u, s4, h5, hrun⟩ := bind_ok_inv _ _ _ _ _ hrun
+    have : t = o' ∧ s4 = s' := by
+      have : (Except.ok t, s4) = (Except.ok o', s') := hrun
+      injection this with h1 h2
+      injection h1 with h1
+      exact ⟨h1, h2⟩
+    obtain ⟨e1, e2⟩ := this
+    subst o'
+    subst s'
+    exact ⟨s1, pa', v', h1, hf, h4a, h5⟩
+
 /-- **`copy.deepcopy(system)`** is `Atoms.__deepcopy__` on the system's atoms (values and freshness:
     `refines_deepcopy`, `deepcopy_fresh`) plus a new system that carries the box, the `pbc` and the STORED
     `symbols` / `masses` tuples of the original, bound to the copied atoms; nothing else changes. -/
@@ -1034,6 +1087,41 @@ theorem sysDeepcopy_spec (s : State) (i a j : Nat) (s' : State) (h : sysDeepcopy
       injection h1 with ha hj
       subst ha
       exact ⟨s1, rfl, hj.symm, h2.symm⟩
+
+/-- **`System(atoms, …, scale=…, safecopy=True)` leaves the given atoms alone** — on a state satisfying the
+    invariant, whatever the constructor returns or raises, every object that existed (the atoms handed in included)
+    is the same and reads the same values — with `scale=True` the box-relative → Cartesian conversion lands in the
+    copy —; a returned system is bound to a NEW atoms object, on the box handed in, whose arrays share memory with no
+    array of any object that existed. -/
+theorem mkSysX_safecopy_operand_unchanged (s : State) (h : Inv s) (o : Nat) (box : Box Rat) (pbc : List Bool)
+    (symbols : Option (List (Option String))) (masses : Option (List (Option Rat))) (scale : Bool)
+    (ho : o < s.objs.length) :
+    (∀ o', o' < s.objs.length → (mkSysX o box pbc symbols masses scale true s).2.obj o' = s.obj o' ∧
+      ∀ p ∈ (s.obj o').props, arrVal (mkSysX o box pbc symbols masses scale true s).2 p.arr = arrVal s p.arr) ∧
+    ∀ a i, (mkSysX o box pbc symbols masses scale true s).1 = .ok (a, i) →
+      ((mkSysX o box pbc symbols masses scale true s).2.sys i).atoms = a ∧
+      ((mkSysX o box pbc symbols masses scale true s).2.sys i).box = box ∧
+      ∀ p' ∈ ((mkSysX o box pbc symbols masses scale true s).2.obj a).props, ∀ o', ∀ p ∈ (s.obj o').props,
+        sharesMem (mkSysX o box pbc symbols masses scale true s).2 p'.arr p.arr = false := by
+  obtain ⟨⟨κ, hinv⟩, hb⟩ := h
+  have := mkSysX_safecopy_frame hinv hb o box pbc symbols masses scale ho
+  unfold Post at this
+  obtain ⟨hf, hres⟩ := this
+  refine ⟨?_, ?_⟩
+  · intro o' ho'
+    refine ⟨hf.2 o' ho', ?_⟩
+    intro p hp
+    have hp0 := hinv.obj_props o' p hp
+    have hbuf := hf.1 p.arr.buf hp0.valid.1
+    simp only [arrVal, arrDt, arrTrail, arrRows, hbuf]
+  · intro a i hai
+    obtain ⟨hfr, hat, hbox⟩ := hres a i hai
+    refine ⟨hat, hbox, ?_⟩
+    intro p' hp' o' p hp
+    have hp0 := hinv.obj_props o' p hp
+    have h1 := hfr p' hp'
+    have : p'.arr.buf ≠ p.arr.buf := by have := hp0.valid.1; omega
+    simp [sharesMem, this]
 
 /-! ## non-vacuity: concrete histories of the model (`K := Rat`) on which the hypotheses hold -/
 
@@ -1139,5 +1227,14 @@ example : step exSc (.sysPropGetScaled 0 "pos" none) = exSc := (sysPropGetScaled
 example : output exSc (.sysDeepcopy 0) = .ok (.objSys 1 1) := by decide +kernel
 example : ((step exSc (.sysDeepcopy 0)).sys 1).symbols = (exSc.sys 0).symbols ∧
     ((step exSc (.sysDeepcopy 0)).sys 1).atoms = 1 := by decide +kernel
+
+-- System(..., scale=True, safecopy=True): the given atoms (object 0, box-relative positions) are untouched, the
+-- system is built on the copy (object 1) whose positions are Cartesian
+example : output ([exNew].foldl step init) (.mkSysX 0 exBox [true, true, true] none none true true) = .ok (.objSys 1 0) := by
+  decide +kernel
+example : (propGet 0 "pos" none (step ([exNew].foldl step init) (.mkSysX 0 exBox [true, true, true] none none true true))).1
+    = (propGet 0 "pos" none ([exNew].foldl step init)).1 := by decide +kernel
+example : (propGet 1 "pos" (some (.int 1)) (step ([exNew].foldl step init) (.mkSysX 0 exBox [true, true, true] none none true true))).1
+    = .ok ⟨.flt, [3], [.flt 4, .flt 4, .flt (1/2)]⟩ := by decide +kernel
 
 end Atomman.C06
